@@ -359,6 +359,10 @@ pub fn replay_faults(case: &Value, tally: &mut Tally) {
         padded.extend_from_slice(&[0xAB; 16]);
         let got = match guarded(|| { let mut r = std::io::Cursor::new(&padded[..]); let ok = serialize::skip_option(&mut r).is_ok(); json!([ok, r.position()]) }) { Ok(v) => v, Err(m) => json!(m) };
         tally.check(hkey(&[ckey, 5]), true, &|| ctx("skip_option moves the reader exactly past the optional structure", n), &json!([true, n]), &got);
+        for chunk in [1usize, 3, 4097] {
+            let got = match guarded(|| { let mut r = Counting { inner: Chunked { inner: std::io::Cursor::new(&padded[..]), chunk }, count: 0 }; let ok = serialize::skip_option(&mut r).is_ok(); json!([ok, r.count]) }) { Ok(v) => v, Err(m) => json!(m) };
+            tally.check(hkey(&[ckey, 6, chunk as u64]), true, &|| ctx("skip_option through a reader that returns at most this many bytes per call", chunk), &json!([true, n]), &got);
+        }
     }
     tally.sample(json!({"value": desc_short(d), "cuts": n}));
 }
